@@ -75,6 +75,12 @@ func runC02(a *A) {
 		}
 	})
 	a.Rule("ordtab/future-guard", 2, func() { a.ruleFutureGuard() })
+	a.Rule("flow/late-row-own-group", 2, func() { a.ruleLateRowOwnGroup() })
+	a.Rule("flow/far-future-dropped", 3, func() {
+		for _, w := range []string{"TumblingWindow", "SlidingWindow", "SessionWindow"} {
+			a.ruleFarFutureDropped(a.Named("window", w), a.Method("window", w, "Add"))
+		}
+	})
 	a.Rule("flow/activity-refreshes-idle-clock", 1, func() {
 		W := wmT()
 		fn := a.Method("window", "Watermark", "UpdateEventTime")
@@ -301,11 +307,12 @@ func (a *A) ruleFutureGuard() {
 			}
 			return ""
 		}}
-	a.OnlyIf(fname(fn)+"#future-guard", fn.Pos(), "no store to maxEventTime/currentWatermark for a timestamp beyond the ceiling", spec,
+	lastEv := a.FieldOf(a.Named("window", "Watermark"), "lastEventTime")
+	a.OnlyIf(fname(fn)+"#future-guard", fn.Pos(), "no store to maxEventTime/currentWatermark/lastEventTime (the idle clock) for a timestamp beyond the ceiling", spec,
 		fn.Blocks[0], nil, nil,
 		func(in ssa.Instruction, _ *Walker) bool {
 			st, ok := in.(*ssa.Store)
-			return ok && (fieldAddrIs(st.Addr, cur) || fieldAddrIs(st.Addr, maxF))
+			return ok && (fieldAddrIs(st.Addr, cur) || fieldAddrIs(st.Addr, maxF) || fieldAddrIs(st.Addr, lastEv))
 		},
 		func(r map[string]int, _ map[string]bool) bool { return r["ev"] <= r["C"] })
 }
@@ -516,4 +523,63 @@ func (a *A) ruleLateUpdateIdentity() {
 		}
 	})
 	a.Check(ok, fname(sw)+"#id-from-slot", sw.Pos(), "window_id is formatted from Start and End of the batch's slot", "window_id is not derived from the batch slot's Start and End: first delivery and late re-delivery could carry different ids")
+}
+
+// ruleFarFutureDropped: "a timestamp more than 24h in the future never changes any result": in the
+// event-time Add of a window with a watermark, no row is stored (and the watermark is not fed) on a
+// path where Watermark.IsFarFuture(ts) returned true. Otherwise such a row, arriving first, pins the
+// first interval in the far future and nothing is ever delivered; in a session window it becomes the
+// key's open session and swallows every later row.
+func (a *A) ruleFarFutureDropped(W *types.Named, add *ssa.Function) {
+	wmF := a.FieldOf(W, "watermark")
+	insert := a.insertionInstrs(W, add)
+	upd := a.methodOf(a.Named("window", "Watermark"), "UpdateEventTime")
+	var targets []ssa.Instruction
+	targets = append(targets, insert...)
+	targets = append(targets, callsTo(add, upd)...)
+	construct := fname(add) + "#far-future-dropped"
+	if len(insert) == 0 {
+		a.Und(construct, add.Pos(), "no row insertion recognised")
+		return
+	}
+	evConst := ""
+	if c, ok := a.Pkg("types").Pkg.Scope().Lookup("EventTime").(*types.Const); ok {
+		evConst = constant.StringVal(c.Val())
+	}
+	assume := func(v ssa.Value) Tri {
+		switch x := v.(type) {
+		case *ssa.Call:
+			if f := x.Call.StaticCallee(); f != nil && f.Name() == "IsFarFuture" {
+				return T
+			}
+		case *ssa.BinOp:
+			if x.Op == token.EQL || x.Op == token.NEQ {
+				res := T
+				if x.Op == token.NEQ {
+					res = F
+				}
+				// watermark == nil is false: the window has a watermark
+				if t := TermOf(x.X, nil); t.Kind == "field" && t.Field == wmF && isNilConst(x.Y) {
+					return res.not()
+				}
+				// timeChar == EventTime is true
+				if k, ok := x.Y.(*ssa.Const); ok && k.Value != nil && k.Value.Kind() == constant.String && constant.StringVal(k.Value) == evConst && evConst != "" {
+					return res
+				}
+			}
+		}
+		return U
+	}
+	var bad ssa.Instruction
+	for _, t := range targets {
+		if reachUnder(add, t, assume) {
+			bad = t
+			break
+		}
+	}
+	if bad == nil {
+		a.Ok(construct, add.Pos(), "with a far-future timestamp none of the %d row insertions / watermark updates of the event-time path is reachable", len(targets))
+	} else {
+		a.Bad(construct, bad.Pos(), "a row whose timestamp Watermark.IsFarFuture reports as corrupt can still be stored or fed to the watermark here: as the first row it pins the first interval in the far future (nothing is ever delivered), in a session window it becomes the key's open session")
+	}
 }
